@@ -16,19 +16,38 @@ use builder::*;
 use serde_json::{json, Value};
 use verif_harness::common::*;
 
-/// the API route used for call i in variant v: variants 0..8 use the same
-/// entry point for every call, 9 and 10 mix them
+/// the API route used for call i in variant v: variants 0..8 and 11..18 use
+/// the same entry point for every call, the others mix them (the route
+/// number is taken apart with different moduli by the driver, see
+/// builder::Drive: entry point of the push, owner representation, TTL
+/// constructor, conversion, limit, header, read-out, finish)
 fn route_of(v: u32, i: usize) -> u32 {
     match v {
         0..=8 => v,
         9 => (i as u32) * 5 + 3,
-        _ => (i as u32) * 11 + 7,
+        10 => (i as u32) * 11 + 7,
+        11..=18 => v - 2 + 17 * (v - 10) + 68 * (v - 10) + 408 * (v % 3),
+        19 => (i as u32 + 1) * 7919 + 13,
+        _ => (i as u32 + 3) * 104729 + 5,
     }
 }
-const VARIANTS: u32 = 11;
+const VARIANTS: u32 = 21;
+
+fn four(v: &Value) -> [u8; 4] {
+    let b = bytes_of(v);
+    let mut h = [0u8; 4];
+    for i in 0..4.min(b.len()) {
+        h[i] = b[i];
+    }
+    h
+}
 
 fn run(comp: &str, tgt: &str, calls: &[Value], variant: u32) -> Value {
-    let mut d = make(comp, tgt);
+    let mut d = make(comp, tgt, variant % 2 == 1);
+    // after request_axfr the message ID is random: it is reported as the
+    // ID the call names until the header is written again
+    let mut id_masked: Option<u16> = None;
+    let mut gone = false;
     let mut acc: Vec<(u8, Item)> = vec![];
     let mut steps = vec![];
     let mut notes: Vec<String> = vec![];
@@ -56,21 +75,69 @@ fn run(comp: &str, tgt: &str, calls: &[Value], variant: u32) -> Value {
             "finish" => {
                 finished = Some(d.finish());
             }
+            "hdr" => {
+                d.set_header(four(&c["h"]));
+                id_masked = None;
+            }
+            "start" => {
+                let qs: Vec<Item> = c["qs"]
+                    .as_array()
+                    .map(|a| a.iter().map(item_from_json).collect())
+                    .unwrap_or_default();
+                let kind = c["kind"].as_str().unwrap_or("");
+                let rq = four(&c["rq"]);
+                res = d.start(kind, rq, c["n"].as_u64().unwrap_or(0) as u8, &qs);
+                if res == "gone" {
+                    gone = true;
+                } else {
+                    // which questions went in is read from the count
+                    let n = d.counts()[0] as usize;
+                    for q in qs.iter().take(n) {
+                        acc.push((1, q.clone()));
+                    }
+                    id_masked = if kind == "axfr" {
+                        Some(u16::from_be_bytes([rq[0], rq[1]]))
+                    } else {
+                        None
+                    };
+                }
+            }
             _ => {
                 let it = item_from_json(&c["item"]);
+                let rc = if op == "optrc" { Some(c["n"].as_u64().unwrap_or(0) as u16) } else { None };
                 let before = (d.octets(), d.stream());
-                let ok = d.push(&it);
+                let ok = d.push(&it, rc);
                 if ok {
                     acc.push((d.section(), it));
                     res = "ok";
                 } else {
                     res = "err";
-                    if (d.octets(), d.stream()) != before {
+                    let mut after = (d.octets(), d.stream());
+                    if rc.is_some() {
+                        // the RCODE bits of the header are compared with the
+                        // specification (flags word of the step)
+                        after.0[3] = (after.0[3] & 0xf0) | (before.0[3] & 0x0f);
+                        if let (Some(a), Some(b)) = (after.1.as_mut(), before.1.as_ref()) {
+                            a[5] = (a[5] & 0xf0) | (b[5] & 0x0f);
+                        }
+                    }
+                    if after != before {
                         notes.push(format!("call {}: failed push changed the octets", i + 1));
                     }
                 }
             }
         }
+        if gone {
+            // the builder was consumed by the failing call: nothing to observe
+            steps.push(json!(["gone", 0, 0, 0, 0, 0, 0, 0, 0, 0]));
+            return json!({"steps": steps, "valid": true});
+        }
+        let hd = match &finished {
+            Some((o, _)) => [o[0], o[1], o[2], o[3]],
+            None => d.header(),
+        };
+        let id = id_masked.unwrap_or(u16::from_be_bytes([hd[0], hd[1]]));
+        let fl = u16::from_be_bytes([hd[2], hd[3]]);
         let (len, cnt, stream) = match &finished {
             Some((o, s)) => {
                 let c = [
@@ -94,7 +161,7 @@ fn run(comp: &str, tgt: &str, calls: &[Value], variant: u32) -> Value {
         } else {
             len
         };
-        steps.push(json!([res, len, cnt[0], cnt[1], cnt[2], cnt[3], acc.len(), shim]));
+        steps.push(json!([res, len, cnt[0], cnt[1], cnt[2], cnt[3], acc.len(), shim, id, fl]));
         if finished.is_some() {
             break;
         }
@@ -113,7 +180,11 @@ fn run(comp: &str, tgt: &str, calls: &[Value], variant: u32) -> Value {
         valid = false;
         notes.push(e);
     }
-    if exact && octets != plain_message(&acc) {
+    if let Err(e) = library_reparse2(&octets, &acc, variant) {
+        valid = false;
+        notes.push(e);
+    }
+    if exact && octets[4..] != plain_message(&acc)[4..] {
         valid = false;
         notes.push("octets differ from the plain encodings".into());
     }
@@ -129,6 +200,8 @@ fn run(comp: &str, tgt: &str, calls: &[Value], variant: u32) -> Value {
 }
 
 fn main() {
+    let all_variants = tier_thorough();
+    let mut case_no = 0usize;
     run_cases(|input| {
         let comp = input["comp"].as_str().unwrap_or("none").to_string();
         let tgt = input["tgt"].as_str().unwrap_or("vec").to_string();
@@ -140,9 +213,18 @@ fn main() {
         if tgt == "vec" {
             tgts.push("bytes");
         }
-        for t in tgts {
+        if tgt == "stream" {
+            tgts.push("sbytes");
+        }
+        // quick tier: half of the variants per behaviour, which half rotates
+        // with the behaviour; thorough tier: all of them
+        case_no += 1;
+        for (ti, t) in tgts.into_iter().enumerate() {
             for v in 0..VARIANTS {
                 if v == 0 && t == tgt {
+                    continue;
+                }
+                if !all_variants && (v as usize + case_no + ti) % 2 == 1 {
                     continue;
                 }
                 let other = catch(|| run(&comp, t, &calls, v));
